@@ -46,11 +46,11 @@ type WireCase struct {
 }
 
 type WireCfg struct {
-	Q        int           `json:"q"`
-	Base     int           `json:"base"`
-	Stride   int           `json:"stride"`
-	Mappings []MappingSpec `json:"mappings"`
-	Real     string        `json:"real"`    // store type for non-collapsing targets
+	Q        int             `json:"q"`
+	Base     int             `json:"base"`
+	Stride   int             `json:"stride"`
+	Mappings []MappingSpec   `json:"mappings"`
+	Real     string          `json:"real"`    // store type for non-collapsing targets
 	Aspects  map[string]bool `json:"aspects"` // valid: boundary cuts decode to the documented content (C07); trunc/unknown/mismatch/missing: C08
 }
 
@@ -233,7 +233,10 @@ func replayWire(cs *WireCase, wc *WireCfg) (mm *WireMismatch) {
 }
 
 func wireConfigs(aspects map[string]bool, thorough bool) []WireCfg {
-	maps := [][]MappingSpec{{{"log", 0.01}, {"cubic", 0.02}}, {{"linear", 0.05}, {"log", 0.05}}, {{"cubic", 0.001}, {"cubic", 0.002}}}
+	maps := [][]MappingSpec{{{Kind: "log", Alpha: 0.01}, {Kind: "cubic", Alpha: 0.02}}, {{Kind: "linear", Alpha: 0.05}, {Kind: "log", Alpha: 0.05}},
+		{{Kind: "cubic", Alpha: 0.001}, {Kind: "cubic", Alpha: 0.002}},
+		// two mappings of different kinds with bit-identical base and offset: still different mappings
+		{{Kind: "log", Alpha: 0.01}, {Kind: "cubic@log", Alpha: 0.01}}, {{Kind: "linear", Alpha: 0.02}, {Kind: "log@linear", Alpha: 0.02}}}
 	embs := []embedding{{0, 1}, {-3, 1}, {30, 1}, {1000, 1}, {-70000, 1}, {5, 3}, {-64, 32}, {1 << 20, 1 << 10}}
 	var out []WireCfg
 	for _, ms := range maps {
@@ -504,7 +507,7 @@ func (c *Ctx) runWireProducer(n int, purpose string) {
 		os.MkdirAll(filepath.Dir(keep), 0o755)
 		copyFile(path, keep)
 		c.report(&Violation{Pipeline: "wire-producer", Case: map[string]interface{}{"trace_file": keep, "line": lineNo}, Step: lineNo,
-			What: fmt.Sprintf("the documented meaning of a real encoding's blocks differs from the encoded sketch's content (line %d of the trace)", lineNo),
+			What:   fmt.Sprintf("the documented meaning of a real encoding's blocks differs from the encoded sketch's content (line %d of the trace)", lineNo),
 			Actual: json.RawMessage(nthLine(path, lineNo)), Tags: map[string]string{"outcome": "producer-mismatch"}})
 	} else if res.Distinct != int64(lines)+1 {
 		infraFail("Trace_Wire consumed %d of %d lines\n%s", res.Distinct-1, lines, res.Output)
@@ -652,7 +655,9 @@ func (c *Ctx) runExactEncodingsIntoPlain(n int) {
 				Tags: map[string]string{"outcome": "valid-stream", "decoder": "DecodeDDSketch"}})
 			continue
 		}
-		near := func(a, b float64) bool { return a == b || math.Abs(a-b) <= 4e-16*math.Max(math.Abs(a), math.Abs(b)) || (a+1)-1 == b }
+		near := func(a, b float64) bool {
+			return a == b || math.Abs(a-b) <= 4e-16*math.Max(math.Abs(a), math.Abs(b)) || (a+1)-1 == b
+		}
 		cmp := func(name string, src, dst store.Store) string {
 			want := map[int]float64{}
 			src.ForEach(func(i int, c float64) bool { want[i] += c; return false })
